@@ -90,6 +90,30 @@ def scenario(run, rng, pv, idx):
                 raise IgnorePacket
         if not relay:
             callbacks[lid] = callback
+        # what kind of callable the user registers: a function, a method of
+        # an object nobody else refers to, a partial, an instance with
+        # __call__ (one of them falsy).  All are called alike.
+        kind = rng.choice(('function', 'function', 'bound-method', 'partial',
+                           'callable-instance', 'falsy-callable-instance'))
+        run.seen('listener_kinds', kind)
+        if kind == 'bound-method':
+            class Holder(object):
+                def on_packet(self, packet):
+                    return callback(packet)
+            return Holder().on_packet
+        if kind == 'partial':
+            import functools
+            return functools.partial(callback)
+        if kind == 'callable-instance':
+            class Handler(object):
+                def __call__(self, packet):
+                    return callback(packet)
+            return Handler()
+        if kind == 'falsy-callable-instance':
+            class Collector(list):
+                def __call__(self, packet):
+                    return callback(packet)
+            return Collector()
         return callback
 
     conn = None
@@ -330,6 +354,7 @@ def scenario(run, rng, pv, idx):
                 config[lst_name].append((lid, types, ()))
                 relays.append((lid, lst_name))
         register_batch(6)
+        __import__('gc').collect()
         if repeat_object:
             # a catch-all listener at the very end of the chain separates the
             # writes of a repeatedly written object in the log
@@ -454,6 +479,7 @@ def scenario(run, rng, pv, idx):
         sent_out2 = []
         if late:
             register_batch(4)
+            __import__('gc').collect()
             marker = log.emit('marker.phase2')
             w['late_config'] = {k: [(l, [t.__name__ for t in ts], list(ig))
                                     for l, ts, ig in v[len(config1[k]):]]
